@@ -1,5 +1,6 @@
 import Driver.Util
 import HeimdallModel.Spec.Authn
+import HeimdallModel.Model.AuthnWire
 -- @family authn
 /-! Line-protocol family `authn` (property C04): chains of authenticators on requests, executed by the model
 (`Heimdall.Authn.run` / `answer`) and, if the implementation's answers are attached, judged by `Spec.judge`. -/
@@ -74,12 +75,24 @@ def parseTable {σ : Type} (names : List (String × σ)) (w : Json) (k : String)
     | .arr #[.str id, .str tok, v] => pure ((id, tok), ← parseVerdict names v)
     | _ => throw s!"bad verdict entry in {k}"
 
+def algNames : List (String × Alg) :=
+  [("ES256", .ES256), ("ES384", .ES384), ("ES512", .ES512), ("EdDSA", .EdDSA), ("PS256", .PS256), ("PS384", .PS384),
+   ("PS512", .PS512), ("RS256", .RS256), ("RS384", .RS384), ("RS512", .RS512), ("HS256", .HS256), ("HS384", .HS384),
+   ("HS512", .HS512)]
+
 def parseWorld (w : Json) : E World := do
   let basic ← (arrD w "basic").mapM fun e => do
     match e with
     | .arr #[.str b, .arr parts] => pure (b, ← parts.toList.mapM (·.getStr?))
     | _ => throw "bad basic entry"
-  pure { basic, parses := (strs w "parses").toOption.getD [],
+  let algs ← (arrD w "headerAlg").mapM fun e => do
+    match e with
+    | .arr #[.str tok, .str alg] =>
+      match algNames.find? (fun p => p.1 == alg) with
+      | some p => pure (tok, p.2)
+      | none => throw s!"unknown signature algorithm {alg}"
+    | _ => throw "bad headerAlg entry"
+  pure { basic, headerAlg := algs,
          jwt := ← parseTable jwtSiteNames w "jwt", intro := ← parseTable introSiteNames w "intro",
          gen := ← parseTable genSiteNames w "gen" }
 
@@ -104,7 +117,7 @@ def optBool (j : Json) (k : String) : Option Bool :=
 
 def parseMech (m : Json) : E Authn := do
   let id ← str m "id"
-  let fb := (optBool m "fb").getD false
+  let fb := optBool m "fb"
   let src ← parseSources m
   let typ ← match ← str m "type" with
     | "anonymous" => pure (Typ.anonymous (strD m "subject" ""))
@@ -147,7 +160,14 @@ def parseBody (rq : Json) : E Body :=
   | .error _ => pure .none
 
 def parseReq (rq : Json) : E Req := do
-  pure { headers := ← parsePairs rq "headers", query := ← parsePairs rq "query", cookies := ← parsePairs rq "cookies",
+  -- the raw query string / raw Cookie header lines, if given, are read as net/url and net/http read them
+  let query ← match rq.getObjVal? "rawQuery" with
+    | .ok (.str raw) => pure (Wire.parseQuery raw)
+    | _ => parsePairs rq "query"
+  let cookies ← match rq.getObjVal? "rawCookies" with
+    | .ok (.arr lines) => do pure (Wire.parseCookies (← lines.toList.mapM (·.getStr?)))
+    | _ => parsePairs rq "cookies"
+  pure { host := strD rq "host" "heimdall.local", headers := ← parsePairs rq "headers", query, cookies,
          body := ← parseBody rq }
 
 def obsJson : Spec.Obs → Json
@@ -196,15 +216,15 @@ def label (w : World) (a : Authn) (r : Req) : String :=
   | .jwt ss =>
     match extract ss r with
     | .error _ => "jwt:noToken"
-    | .ok t => if w.parses.contains t then verdict "jwt" jwtSiteNames (w.jwtVerdict a.id t) else "jwt:parse"
+    | .ok t => if w.parsesJWT t then verdict "jwt" jwtSiteNames (w.jwtVerdict a.key t) else "jwt:parse"
   | .introspection ss =>
     match extract ss r with
     | .error _ => "oauth2_introspection:noToken"
-    | .ok t => verdict "oauth2_introspection" introSiteNames (w.introVerdict a.id t)
+    | .ok t => verdict "oauth2_introspection" introSiteNames (w.introVerdict a.key t)
   | .generic ss =>
     match extract ss r with
     | .error _ => "generic:noData"
-    | .ok t => verdict "generic" genSiteNames (w.genVerdict a.id t)
+    | .ok t => verdict "generic" genSiteNames (w.genVerdict a.key t)
 
 def run (c : Json) : E Json := do
   let mechs ← (← arr c "mechs").mapM parseMech
